@@ -210,11 +210,21 @@ def project_adapt(sc, run):
     """AdaptScheduleTrace vocabulary: one line per draw. Returns (events, problems)."""
     from fractions import Fraction
     lines = []
-    cur = {"ret": None, "adapt": None, "ss": [], "ss_set": [], "seq": []}
+    cur = {"ret": None, "adapt": None, "ss": [], "ss_set": [], "seq": [], "leaps": [], "e0": None}
     draws = []
+    in_tree = False
     for ev in run:
         k = ev["ev"]
+        if k == "traj_init":
+            in_tree = True
+            cur["e0"] = ev["e0"]
+            cur["leaps"] = []
+        elif k == "leap" and in_tree:
+            cur["leaps"].append(ev)
+        elif k == "ret_err":
+            in_tree = False
         if k == "ret":
+            in_tree = False
             cur["ret"] = ev
         elif k == "adapt":
             cur["adapt"] = ev
@@ -229,7 +239,7 @@ def project_adapt(sc, run):
         elif k == "draw_out":
             cur["out"] = ev
             draws.append(cur)
-            cur = {"ret": None, "adapt": None, "ss": [], "ss_set": [], "seq": []}
+            cur = {"ret": None, "adapt": None, "ss": [], "ss_set": [], "seq": [], "leaps": [], "e0": None}
     draws = [d for d in draws if d["out"]["res"] == "ok" and d["adapt"] is not None]
     if not draws:
         return [], []
@@ -373,6 +383,35 @@ def project_adapt(sc, run):
             good = "t" if ((abs(idx) > 4) if div else (idx != 0)) else "f"
         else:
             good = "na"
+        # C07: the two acceptance statistics of the trajectory are the documented functions of the energy errors of
+        # its leapfrogs: mean of min(1, e^d) and of 2 min(1, e^d) / (1 + e^d), d = E0 - E; a failed leapfrog counts 0
+        accok = True
+        if d["e0"] is not None and d["leaps"] and d["ret"] is not None:
+            e0v = f_from_bits(d["e0"])
+            s1 = s2 = 0.0
+            usable = True
+            for lp in d["leaps"]:
+                if lp.get("res") == "ok":
+                    diff = e0v - f_from_bits(lp["energy"])
+                    if diff != diff:
+                        usable = False
+                        break
+                    try:
+                        a1 = math.exp(min(diff, 0.0))
+                        s1 += a1
+                        s2 += 2.0 * a1 / (1.0 + math.exp(diff))
+                    except OverflowError:
+                        s2 += 0.0 if diff > 0 else 2.0 * a1
+                elif lp.get("res") == "div":
+                    pass
+                else:
+                    usable = False
+            n_l = len(d["leaps"])
+            ra, rs = sval(stt, "mean_tree_accept"), sval(stt, "mean_tree_accept_sym")
+            if usable and ra and rs:
+                ga, gs = f_from_bits(ra), f_from_bits(rs)
+                if math.isfinite(ga) and math.isfinite(gs):
+                    accok = close(s1 / n_l, ga, rel=1e-12, abs_=1e-15) and close(s2 / n_l, gs, rel=1e-12, abs_=1e-15)
         daok = True
         if model is not None:
             for e2 in d["seq"]:
@@ -401,7 +440,7 @@ def project_adapt(sc, run):
                 "tid": a["tid"], "tuning": a["tuning"], "ptuning": o["progress"]["tuning"],
                 "stuning": sval(stt, "tuning"), "fedcalls": fedcalls, "fedvalok": fedvalok,
                 "barsame": bool(barsame), "inband": bool(inband), "stepok": bool(stepok), "good": good,
-                "diag": "lowrank" not in sc["preset"], "mmok": bool(mmok), "daok": bool(daok),
+                "diag": "lowrank" not in sc["preset"], "mmok": bool(mmok), "daok": bool(daok), "accok": bool(accok),
                 "stepf": step if math.isfinite(step) else None, "barf": bar if math.isfinite(bar) else None}
         if kind == "global":
             line.update({"switched": a["switched"], "changed": a["changed"], "research": a["research"],
